@@ -12,7 +12,7 @@ import (
 )
 
 func init() {
-	props["C13"] = &propDef{run: runC13, explanation: "Partial ('only if' direction). Decided statically on the patch validators: (K1) the numeric limits and the id pattern — len(id) > 50 rejects, len(service type) > 30 rejects, purposes longer than the 5-entry purpose table reject, ids must match the regexp literal ^[A-Za-z0-9_-]+$ compiled once; (T1) the key-type × purpose matrix extracted from the four package-level literals equals the documented matrix and the purpose table holds the five document.KeyPurpose* constants; (T2) the member-name sets of a key (required, optional, one-of) and of a replace document; (U1) every for-all loop in the validator packages rejects only inside its body (an accepting return inside such a loop validates only a prefix); (G1) per action, success lies behind each documented check for every element (for-all form through helper boundaries): array presence, id rules, duplicate ids, member rule, purposes rule, type/purpose rule, JWK rule, service id/type/endpoint rules with URI validity for a string endpoint and for every string entry of a list endpoint, also-known-as URI parse and uniqueness, replace member set, original-document id/context refusal. Not decided: the 'if' direction; what net/url accepts; JWK well-formedness beyond the presence checks. (U2) every seen-set is searched with the key expression it is filled with. Presence of a key member is tested by comma-ok lookups only; in JWK.Validate each member is demanded only of the key type it belongs to. ParsePublicKeys / ParseServices leave their entry loop only at its end. Closed set of refusals of JWK.Validate (exact: member M is empty); accessor hands back the patch's own list; validators test the payload as the document package decodes it."}
+	props["C13"] = &propDef{extraPkgs: []string{jsonPatchPkg}, run: runC13, explanation: "Partial ('only if' direction). Decided statically on the patch validators: (K1) the numeric limits and the id pattern — len(id) > 50 rejects, len(service type) > 30 rejects, purposes longer than the 5-entry purpose table reject, ids must match the regexp literal ^[A-Za-z0-9_-]+$ compiled once; (T1) the key-type × purpose matrix extracted from the four package-level literals equals the documented matrix and the purpose table holds the five document.KeyPurpose* constants; (T2) the member-name sets of a key (required, optional, one-of) and of a replace document; (U1) every for-all loop in the validator packages rejects only inside its body (an accepting return inside such a loop validates only a prefix); (G1) per action, success lies behind each documented check for every element (for-all form through helper boundaries): array presence, id rules, duplicate ids, member rule, purposes rule, type/purpose rule, JWK rule, service id/type/endpoint rules with URI validity for a string endpoint and for every string entry of a list endpoint, also-known-as URI parse and uniqueness, replace member set, original-document id/context refusal. Not decided: the 'if' direction; what net/url accepts; JWK well-formedness beyond the presence checks. (U2) every seen-set is searched with the key expression it is filled with. Presence of a key member is tested by comma-ok lookups only; in JWK.Validate each member is demanded only of the key type it belongs to. ParsePublicKeys / ParseServices leave their entry loop only at its end. Closed set of refusals of JWK.Validate (exact: member M is empty); accessor hands back the patch's own list; validators test the payload as the document package decodes it."}
 }
 
 func constStringsOfAlloc(c *Ctx, a *ssa.Alloc) []string {
@@ -198,7 +198,65 @@ func runC13(c *Ctx) {
 		}})
 		_ = needNonEmpty // an empty id is rejected by the pattern's '+' (K1 pins the literal); no separate obligation
 	}
+	// … and every entry that passes is remembered: on every way round the loop the id is put into the set (a `continue`
+	// placed before the insertion lets a later entry repeat the id of one that took that way)
+	recorded := map[*ssa.Function]bool{}
+	recordsEveryRound := func(key string, entry *ssa.Function) {
+		for _, h := range append([]*ssa.Function{entry}, c.helpersOf(entry, 3)...) {
+			if recorded[h] || pkgPathOf(h) != modPkg+pPV {
+				continue
+			}
+			for _, l := range naturalLoops(h) {
+				// the loop looks ids up in a local set of strings
+				usesSet := false
+				var inserts []*ssa.BasicBlock
+				for b := range l.blocks {
+					for _, in := range b.Instrs {
+						switch x := in.(type) {
+						case *ssa.Lookup:
+							if isLocalSet(c, x.X, nil) && isStringType(x.Index.Type()) {
+								usesSet = true
+							}
+						case *ssa.MapUpdate:
+							if isLocalSet(c, x.Map, nil) {
+								inserts = append(inserts, b)
+							}
+						case *ssa.Call:
+							// the lookup-and-insert kept in a function literal called from the loop
+							if lit := localLiteral(x); lit != nil {
+								hasUp, hasLk := false, false
+								forEachInstr(lit, func(i2 ssa.Instruction) {
+									switch y := i2.(type) {
+									case *ssa.MapUpdate:
+										hasUp = hasUp || trueOnlySet(y.Map) || isLocalSet(c, y.Map, c.calleeEnv(&x.Call, lit, nil))
+									case *ssa.Lookup:
+										hasLk = true
+									}
+								})
+								if hasUp && hasLk {
+									usesSet = true
+									inserts = append(inserts, b)
+								}
+							}
+						}
+					}
+				}
+				if !usesSet {
+					continue
+				}
+				recorded[h] = true
+				okIns := false
+				for _, b := range inserts {
+					if everyIterationOf(l, b) {
+						okIns = true
+					}
+				}
+				c.Check("C13.G1", key+":id-recorded-on-every-round@"+h.Name(), okIns, firstPos(l.header), fmt.Sprintf("%s: the set of ids seen so far receives the entry's id on every way round the loop", short(h.String())))
+			}
+		}
+	}
 	noDup := func(key string, entry *ssa.Function, idPath pathPred) {
+		recordsEveryRound(key, entry)
 		c.forAllDeep("C13.G1", key+":duplicate-id-rejected", entry, nil, &GCheck{Name: key + ": id not seen before", BoolFalse: true, MatchOK: func(c *Ctx, v ssa.Value, env Env) bool {
 			lk, ok := v.(*ssa.Lookup)
 			if !ok {
@@ -328,6 +386,9 @@ func runC13(c *Ctx) {
 	c.Min("C13.G1", 63)
 	c.Min("C13.K1", 1)
 	c.Assume("net/url.ParseRequestURI / url.Parse decide URI validity; the 'if' direction (every conforming patch is accepted) is not decided")
+	// "ietf-json-patch operations may not touch keys or services": the pointer rules of the JSON-patch validator (C11) are
+	// part of which patches are accepted
+	runC11(c)
 }
 
 // setOps collects the key expressions a local map is searched with and filled with: directly, under a named type,
